@@ -102,8 +102,54 @@ def run(ctx):
     from p_C11 import linear_rule
     from p_C12 import item_groups
     linear_rule(ctx, c, R_LIN, item_groups(c, impls), "C14")
+    R_TP = ctx.rule("C14.takepend", "a value taken out of an adaptor's state is never dropped on a path that returns Pending", floor=3)
+    from p_C11 import takepend_rule
+    sink_adts = set(i.get("self_adt") for i in impls if i.get("self_adt"))
+    for i in c.impls_of_trait("futures_core::stream::Stream") + c.impls_of_trait("future::Future"):
+        if i.get("self_adt"):
+            sink_adts.add(i["self_adt"])
+    takepend_rule(ctx, c, R_TP, sink_adts, "sinktools")
+    R_SI = ctx.rule("C14.stateitem", "a state variant that buffers an item is overwritten only after the item was taken out of it", floor=4)
+    stateitem_rule(ctx, c, R_SI)
     R_ERR = ctx.rule("C14.err", "no Result of an inner sink operation is discarded", floor=10)
     bodies = []
     for imp, r in res:
         bodies += [fa.b for fa in r.fas.values()] + [fa.b for fa in r.helper_fas.values()]
     err_rule(ctx, c, bodies, R_ERR)
+
+
+def stateitem_rule(ctx, c, rid, impls_trait="futures_sink::Sink"):
+    """a state-machine variant that buffers an item is overwritten only after the item was taken out of it"""
+    import stateitem
+    like = stateitem.item_like_generics(c, impls_trait)
+    fields = stateitem.item_fields(c, like)
+    ctx.extra["item_carrying_state_variants"] = {a.split("::")[-1]: {v: sorted(fs) for v, fs in vs.items()} for a, vs in fields.items()}
+    for d, b in sorted(c.bodies.items()):
+        if b.kind == "Closure" and False:
+            continue
+        if c.is_test_path(d):
+            continue
+        evs = stateitem.overwrite_events(b, c, fields)
+        if not evs:
+            continue
+        takes = stateitem.take_blocks(b)
+        key = "%s|%s" % (c.name, fn_key(c, b))
+        n = 0
+        for bb, adt, how in evs:
+            a = c.adts[adt]
+            allv = [v["name"] for v in a["variants"]]
+            ctxs = [(sb, v, tgt) for sb, v, tgt in stateitem.variant_contexts(b, c, allv) if b.dominates(tgt, bb) and len(b.preds(tgt)) == 1]
+            cur = set(v for _sb, v, _t in ctxs)
+            # innermost context wins when nested matches on different state values exist: keep variants whose target is dominated by all others
+            for v in sorted(cur):
+                need = fields[adt].get(v)
+                if not need:
+                    continue
+                n += 1
+                for f in sorted(need):
+                    ok = any((v, f) in vf and b.dominates(tb, bb) for tb, vf in takes.items())
+                    if not ok:
+                        ctx.violation(rid, "%s|overwrite-without-take:%s.%s" % (key, v, f),
+                                      "the state is overwritten (%s) while it is in variant `%s`, whose field `%s` may hold a buffered item, and no take()/replace() of that field "
+                                      "dominates the overwrite: an item sent before or during initialisation is lost" % (how, v, f), b.loc(bb), {"function": b.def_path})
+        ctx.inst(rid, key, nontrivial=n > 0, sites=len(evs), sample={"overwrites": [(bb, how) for bb, _a, how in evs]})
